@@ -619,7 +619,7 @@ def run_case(seed, task, tier):
     idx = task['case']
     texts, demo, rng = case_texts(seed, idx)
     out = {'executions': 0, 'signatures': [], 'violations': [], 'probes': {}, 'faults': {}, 'steps': 0}
-    n_examples = 14 if tier == 'quick' else 40
+    n_examples = 30 if tier == 'quick' else 60
     trace_box = [None]
     stats_box = []
     with cvcase.Scratch('c11_') as wd:
